@@ -269,6 +269,16 @@ static void op(long c, long, vh::Tok& t)
   else if(IS("findlo")) { CArg a(A(2)); const String& s = V(1); const char* p = s.findLastOf(a.c()); printf("%lld", off(s, s.data->str, p)); }
   else if(IS("starts")) printf("%d", V(1).startsWith(V(2)) ? 1 : 0);
   else if(IS("ends")) printf("%d", V(1).endsWith(V(2)) ? 1 : 0);
+  else if(IS("appo")) {              // the source lies in the String's own text
+    String& s = V(1); const char* p = s;
+    s.append(p + N(2), N(3));
+    printf("-");
+  }
+  else if(IS("printfs")) {           // an argument of printf is the String's own C-string view
+    String& s = V(1); CArg a(A(2)), b(A(3)); const char* p = s;
+    int r = s.printf("%s%s%s", a.c(), p, b.c());
+    printf("%d", r);
+  }
   else if(IS("len")) {
     const String& s = V(1);
     if(s.isEmpty() != (s.length() == 0)) printf("!isEmpty-inconsistent"); else printf("%llu", (unsigned long long)s.length());
